@@ -87,8 +87,8 @@ def str_method(it, recv, name, args, kwargs):
         b = _arg_str(it, recv, args[1])
         if is_concrete_str(recv) and is_concrete_str(a) and \
                 is_concrete_str(b):
-            return M.from_py(concrete_str(recv).replace(concrete_str(a),
-                                                        concrete_str(b)))
+            return VStr(concrete_str(recv).replace(concrete_str(a),
+                                                   concrete_str(b)), recv.b)
         if not is_concrete_str(a) or len(concrete_str(a)) == 0:
             raise Unsupported('str.replace of a symbolic / empty pattern')
         # replace-all as an uninterpreted function with sound facts only
@@ -141,6 +141,12 @@ def str_method(it, recv, name, args, kwargs):
             return ctx.alloc(ListCell([recv]))
         if maxsplit is not None:
             raise Unsupported('split maxsplit=%r' % maxsplit)
+        if is_concrete_str(recv) and is_concrete_str(sep) and \
+                len(concrete_str(sep)) > 0 and ctx.spec_mode == 0 and \
+                getattr(ctx, 'fold_split', False):
+            return ctx.alloc(ListCell([
+                VStr(p, recv.b)
+                for p in concrete_str(recv).split(concrete_str(sep))]))
         L = M.F_Split(e, sep.e)
         split_facts(ctx, e, sep.e, L)
         ctx.ghost.setdefault('splits', []).append((e, sep.e, L))
